@@ -4,6 +4,7 @@ import (
 	"fmt"
 	"go/token"
 	"go/types"
+	"os"
 	"runtime/debug"
 	"strings"
 
@@ -212,7 +213,21 @@ func (r *Run) runFrame(fr *frame) {
 		e := recover()
 		tp, ok := e.(targetPanic)
 		if !ok {
-			panic(e) // engine-level unwinding: do not run target defers
+			switch e.(type) {
+			case abortRun, pathEnd, killed:
+				panic(e) // engine-level unwinding: do not run target defers
+			}
+			// a bug in the engine (or an unsupported shape): keep the origin
+			st := string(debug.Stack())
+			if i := strings.Index(st, "panic("); i >= 0 {
+				st = st[i:]
+			}
+			lines := strings.Split(st, "\n")
+			if len(lines) > 14 {
+				lines = lines[:14]
+			}
+			fr.g.top = fr
+			panic(abortRun{fmt.Sprintf("engine error: %v @ %s in %s\ntarget stack: %s\n%s", e, fr.site(), fr.fn, strings.Join(fr.g.stackTrace(10), " <- "), strings.Join(lines, "\n"))})
 		}
 		if tp.site == "" {
 			tp.site = fr.site()
@@ -254,6 +269,23 @@ func (fr *frame) runDefers() {
 	}
 	if fr.panicking {
 		panic(fr.panicVal)
+	}
+}
+
+var traceOn = os.Getenv("GOSYM_TRACE") != ""
+
+func (r *Run) traceInstr(fr *frame, ci *cinstr) {
+	if tf := os.Getenv("GOSYM_TRACE"); tf != "1" && !strings.Contains(fr.fn.String(), tf) {
+		return
+	}
+	out := ""
+	if ci.dst >= 0 {
+		out = " => " + describe(fr.regs[ci.dst])
+	}
+	if v, ok := ci.ins.(ssa.Value); ok {
+		fmt.Fprintf(os.Stderr, "  [%s] %s = %s%s\n", fr.fn.Name(), v.Name(), ci.ins, out)
+	} else {
+		fmt.Fprintf(os.Stderr, "  [%s] %s\n", fr.fn.Name(), ci.ins)
 	}
 }
 
@@ -307,7 +339,11 @@ func (r *Run) execBlocks(fr *frame) {
 					r.abort("step budget exceeded (%d)", r.W.Lim.MaxSteps)
 				}
 			}
-			switch r.visit(g, fr, ci) {
+			k := r.visit(g, fr, ci)
+			if traceOn {
+				r.traceInstr(fr, ci)
+			}
+			switch k {
 			case kReturn:
 				return
 			case kJump:
@@ -354,7 +390,7 @@ func (r *Run) visit(g *Goroutine, fr *frame, ci *cinstr) kont {
 		if p == nil {
 			r.panicRuntime(g, "invalid memory address or nil pointer dereference")
 		}
-		*p = copyVal(fr.get(&ci.args[1]))
+		storeInto(p, fr.get(&ci.args[1]))
 
 	case *ssa.FieldAddr:
 		p := fr.get(&ci.args[0]).(*Value)
@@ -791,4 +827,26 @@ func (r *Run) initPackage(g *Goroutine, pkg *ssa.Package) {
 	r.callSSA(g, g.top, init, nil, nil)
 	r.initDepth--
 	r.wantInit = saved
+}
+
+// storeInto assigns v to the cell *p. Aggregates are copied element-wise into
+// the existing storage so that addresses of fields/elements taken earlier stay valid.
+func storeInto(p *Value, v Value) {
+	switch x := v.(type) {
+	case Struct:
+		if dst, ok := (*p).(Struct); ok && len(dst) == len(x) {
+			for i := range x {
+				storeInto(&dst[i], x[i])
+			}
+			return
+		}
+	case Array:
+		if dst, ok := (*p).(Array); ok && len(dst) == len(x) {
+			for i := range x {
+				storeInto(&dst[i], x[i])
+			}
+			return
+		}
+	}
+	*p = copyVal(v)
 }
